@@ -151,7 +151,7 @@ def parse_harness_output(text, allow=None):
         if status in ("FAILURE",):
             if any(p.search(desc) for p in UNDECIDED_PATTERNS):
                 res["undecided_checks"].append("%s: %s" % (name, desc))
-            elif any(a.search(desc) for a in allow_res):
+            elif any(a.search(desc + " @ " + (loc or "")) for a in allow_res):
                 res["ignored"].append(entry)
             else:
                 res["failed"].append(entry)
